@@ -26,6 +26,21 @@ func Canon(v interface{}, skip ...string) interface{} {
 	return canon(reflect.ValueOf(v), sk, 0)
 }
 
+// CanonShared is Canon for object graphs in which pointers to structs named "Thrift" (parsed IDL files) may
+// be shared: the first visit of such a node is dumped with "#id", later visits as {"#ref": id}, so that two
+// graphs are equal only if they share the same nodes in the same places.
+func CanonShared(v interface{}, skip ...string) interface{} {
+	sk := map[string]bool{}
+	for _, s := range skip {
+		sk[s] = true
+	}
+	shared = map[uintptr]int{}
+	defer func() { shared = nil }()
+	return canon(reflect.ValueOf(v), sk, 0)
+}
+
+var shared map[uintptr]int
+
 func canon(v reflect.Value, skip map[string]bool, depth int) interface{} {
 	if !v.IsValid() || depth > 200 {
 		return nil
@@ -34,6 +49,18 @@ func canon(v reflect.Value, skip map[string]bool, depth int) interface{} {
 	case reflect.Ptr, reflect.Interface:
 		if v.IsNil() {
 			return nil
+		}
+		if shared != nil && v.Kind() == reflect.Ptr && v.Elem().Kind() == reflect.Struct && v.Elem().Type().Name() == "Thrift" {
+			if id, ok := shared[v.Pointer()]; ok {
+				return map[string]interface{}{"#ref": strconv.Itoa(id)}
+			}
+			id := len(shared) + 1
+			shared[v.Pointer()] = id
+			m, _ := canon(v.Elem(), skip, depth+1).(map[string]interface{})
+			if m != nil {
+				m["#id"] = strconv.Itoa(id)
+			}
+			return m
 		}
 		return canon(v.Elem(), skip, depth+1)
 	case reflect.Struct:
